@@ -1008,7 +1008,9 @@ def run_threadpool(case, schedule, runtime=None):
             except Watchdog:
                 raise
             except BaseException as err:  # noqa
-                return obs_of_result(w, exc=err, status="failed")
+                o = obs_of_result(w, exc=err, status="failed")
+                o["raised_at_call"] = True          # no Future was returned: nothing to attach a done-callback to
+                return o
             if not isinstance(fut, Future):
                 return obs_of_result(w, status="not-a-future")
             while not fut.done() and w.queue:
@@ -1051,7 +1053,9 @@ def run_asyncio(case, schedule, runtime=None):
             except Watchdog:
                 raise
             except BaseException as err:  # noqa
-                return obs_of_result(w, exc=err, status="failed")
+                o = obs_of_result(w, exc=err, status="failed")
+                o["raised_at_call"] = True          # the call itself raised: there is no awaitable to await
+                return o
             if not asyncio.iscoroutine(aw) and not asyncio.isfuture(aw):
                 return obs_of_result(w, status="not-awaitable")
             task = asyncio.ensure_future(aw, loop=loop)
